@@ -11,7 +11,7 @@
       which the real code disagrees with the statement oracle although every obligation is discharged means one of those
       assumptions (or the oracle) is wrong, and is reported as a VIOLATION with the witness;
    c. C04 only: the equivalence of right-most-first expansion with csh's left-to-right expansion, exhaustively for all
-      brace patterns up to length 8 over a 5-letter alphabet (the part of C04 that is not proved).
+      brace patterns up to length 10 over a 5-letter alphabet (the part of C04 that is not proved).
 3. replay of the recorded witnesses of known findings against the real code (done by bin/check).
 """
 import hashlib
@@ -183,7 +183,7 @@ def run(pid, cfg, repo, seed, root):
                     lines.append("VIOLATION property=C13 replay=%s obligation=digest::(assumed;std_digest==hashlib)" % path)
                     code = 1
             if pid == "C04" and code == 0:
-                n = os.environ.get("VERIF_C04_MAXLEN", "8")
+                n = os.environ.get("VERIF_C04_MAXLEN", "10")
                 t = time.time()
                 p = subprocess.run([exe, "bounded", "C04", n], stdout=subprocess.PIPE, stderr=subprocess.PIPE, universal_newlines=True, timeout=3000)
                 dif["c04_expansion_equivalence"] = {"label": "bounded exhaustive (all brace patterns up to length %s)" % n,
